@@ -14,6 +14,15 @@ Extracted (each becomes one Lean `def`; a construct outside the supported fragme
   oneElementIsShift   _convert_and_check_uniformity runs the diff check only under `len(val) > 1`
   sliceCopies         the slice branch of __getitem__ takes `.copy()` of the selected samples
   lookupBothOrientations  index_at branches on `self.sampling_interval > 0`
+  checkOperandAttrs   every attribute READ FROM THE OPERAND (`val.<attr>`) in _convert_and_check_uniformity: the
+                      model's `checkOperand` reads dtype / astype / ndim only — an attribute such as
+                      `val.sampling_interval` (trusting the operand's type instead of differencing its samples)
+                      changes this list
+  checkHasattr        the names probed by hasattr(val, ...) / getattr(val, ...)
+  checkIsinstance     the classes the operand is tested against with isinstance(val, ...) (none: no branch on type)
+  checkDiffExpr       the right-hand side bound to `dv`          (np.diff of the operand itself)
+  checkBreaksExpr     the right-hand side bound to `uniformity_breaks`   (exact `!=`, no tolerance)
+  checkIntervalSources  every right-hand side bound to `d_interval` in statement order
 """
 import ast
 import translate as T
@@ -70,6 +79,20 @@ def calls_in_order(fn):
     return out
 
 
+def first_guard(fn):
+    """the first `if` of a method, provided nothing before it touches the samples or the attributes
+    (a leading normalisation of the argument such as `val = self._whole_factor(val)` is allowed)"""
+    for st in fn.body:
+        if isinstance(st, ast.Expr) and isinstance(st.value, ast.Constant):
+            continue
+        if isinstance(st, ast.If):
+            return st
+        if any(isinstance(c, ast.Call) and (callee(c).startswith('np.ndarray.') or callee(c).endswith('_set_sampling'))
+               for c in ast.walk(st)):
+            return None
+    return None
+
+
 def lean_str_list(xs):
     return '[' + ', '.join('"%s"' % x.replace('\\', '\\\\').replace('"', '\\"') for x in xs) + ']'
 
@@ -91,13 +114,13 @@ def gen_c17ops():
     setitem_raises = len(body) == 1 and isinstance(body[0], ast.Raise)
     # __imul__
     im = find_method(cls, '__imul__')
-    b0 = [s for s in im.body if not (isinstance(s, ast.Expr) and isinstance(s.value, ast.Constant))][0]
+    b0 = first_guard(im)
     imul_zero = (isinstance(b0, ast.If) and ast.unparse(b0.test) == 'val == 0' and any(isinstance(x, ast.Raise) for x in b0.body))
     # __idiv__
     idv = find_method(cls, '__idiv__')
     guards = []
     if idv is not None:
-        b0 = [s for s in idv.body if not (isinstance(s, ast.Expr) and isinstance(s.value, ast.Constant))][0]
+        b0 = first_guard(idv)
         if isinstance(b0, ast.If) and any(isinstance(x, ast.Raise) for x in b0.body):
             t = b0.test
             guards = [ast.unparse(v) for v in t.values] if isinstance(t, ast.BoolOp) and isinstance(t.op, ast.Or) else [ast.unparse(t)]
@@ -118,9 +141,33 @@ def gen_c17ops():
     # index_at
     ia = find_method(cls, 'index_at')
     both = any(isinstance(n, ast.If) and ast.unparse(n.test) == 'self.sampling_interval > 0' for n in ast.walk(ia))
-    info = {'finalizeAttrs': attrs, 'finalizeCopies': copies, 'setitemAlwaysRaises': setitem_raises, 'imulRefusesZero': imul_zero,
+    # _convert_and_check_uniformity: where the interval change of the operand comes from
+    op_attrs, op_hasattr, op_isinst, diff_expr, breaks_expr, d_sources = set(), set(), [], '', '', []
+    for n in ast.walk(cc):
+        if isinstance(n, ast.Attribute) and isinstance(n.value, ast.Name) and n.value.id == 'val':
+            op_attrs.add(n.attr)
+        if isinstance(n, ast.Call) and callee(n) in ('hasattr', 'getattr') and n.args and isinstance(n.args[0], ast.Name) \
+                and n.args[0].id == 'val':
+            op_hasattr.add(n.args[1].value if len(n.args) > 1 and isinstance(n.args[1], ast.Constant) else ast.unparse(n))
+        if isinstance(n, ast.Call) and callee(n) in ('isinstance', 'issubclass', 'type') and n.args and \
+                any(isinstance(x, ast.Name) and x.id == 'val' for x in ast.walk(n.args[0])) and callee(n) != 'issubclass':
+            op_isinst.append(ast.unparse(n))
+        if isinstance(n, (ast.Assign, ast.AugAssign, ast.AnnAssign)):
+            tg = n.targets if isinstance(n, ast.Assign) else [n.target]
+            names = [x.id for t_ in tg for x in ast.walk(t_) if isinstance(x, ast.Name)]
+            rhs = ast.unparse(n.value) if n.value is not None else ''
+            if 'dv' in names:
+                diff_expr = rhs if not diff_expr else diff_expr + ' ; ' + rhs
+            if 'uniformity_breaks' in names:
+                breaks_expr = rhs if not breaks_expr else breaks_expr + ' ; ' + rhs
+            if 'd_interval' in names:
+                d_sources.append(rhs)
+    op_attrs, op_hasattr = sorted(op_attrs), sorted(op_hasattr)
+    info = {'checkOperandAttrs': op_attrs, 'checkHasattr': op_hasattr, 'checkIsinstance': op_isinst, 'checkDiffExpr': diff_expr,
+            'checkBreaksExpr': breaks_expr, 'checkIntervalSources': d_sources}
+    info.update({'finalizeAttrs': attrs, 'finalizeCopies': copies, 'setitemAlwaysRaises': setitem_raises, 'imulRefusesZero': imul_zero,
             'idivGuards': guards, 'iaddOrder': iadd, 'isubOrder': isub, 'oneElementIsShift': one_shift, 'sliceCopies': slice_copies,
-            'lookupBothOrientations': both}
+            'lookupBothOrientations': both})
     b = lambda v: 'true' if v else 'false'
     lines = ['-- GENERATED by harness/translate_c17.py from nitime/timeseries.py (class UniformTime). DO NOT EDIT.',
              'namespace Nitime.Generated.C17Ops', '',
@@ -137,7 +184,15 @@ def gen_c17ops():
              'def isubOrder : List String := ' + lean_str_list(isub),
              'def oneElementIsShift : Bool := ' + b(one_shift),
              'def sliceCopies : Bool := ' + b(slice_copies),
-             'def lookupBothOrientations : Bool := ' + b(both), '',
+             'def lookupBothOrientations : Bool := ' + b(both),
+             '/-- `_convert_and_check_uniformity`: attributes read from the operand, names probed on it, type tests on it -/',
+             'def checkOperandAttrs : List String := ' + lean_str_list(op_attrs),
+             'def checkHasattr : List String := ' + lean_str_list(op_hasattr),
+             'def checkIsinstance : List String := ' + lean_str_list(op_isinst),
+             '/-- … the differences, the test that finds the breaks, and every source of the interval change -/',
+             'def checkDiffExpr : String := ' + lean_str_list([diff_expr])[1:-1],
+             'def checkBreaksExpr : String := ' + lean_str_list([breaks_expr])[1:-1],
+             'def checkIntervalSources : List String := ' + lean_str_list(d_sources), '',
              'end Nitime.Generated.C17Ops', '']
     return 'C17Ops.lean', '\n'.join(lines), info
 
